@@ -369,6 +369,16 @@ def run(report, p):
             r2.instance(f, node, f"{what}: enumerated {tname} <- {sorted(consts)}")
             extra = set(consts) - set(info["enum"]) - allowed_transient(p, tname)
             r2.check(not extra and not unknown, f, node, f"{what} can carry {sorted(extra) or unknown} which is outside the enumeration {info['enum']} of {tname}", construct=f"{what} enum")
+        if info["pattern"]:
+            # values the writer itself supplies (fall-backs such as `x or ""`, conditional expressions, constructor defaults) must satisfy the pattern;
+            # what the user typed is not decided
+            lits = _literal_alternatives(p, pr, value, f)
+            r2.instance(f, node, f"{what}: pattern {info['pattern'][0]} <- literals {sorted(lits)}")
+            import re as _re
+
+            for lit in sorted(lits):
+                okp = any(_xsd_pattern_matches(pat, lit) for pat in info["pattern"])
+                r2.check(okp, f, node, f"{what} can carry the literal {lit!r} supplied by the writer itself (`{norm(value)[:50]}`), which does not match the pattern {info['pattern'][0]!r} of {tname}: every manifest written when the value is not given fails schema validation", construct=f"{what} literal {lit!r} vs pattern")
         if base == "integer":
             ok = isinstance(value, ast.Call) and norm(value.func) == "str" and len(value.args) == 1 and int_typed(p, value.args[0], f)
             r2.check(ok, f, node, f"{what} has type integer but is not str(<int field>): {norm(value)[:60]}", construct=f"{what} integer")
@@ -572,6 +582,48 @@ def _is_ignore_spec(p, guard):
 def allowed_transient(p, tname):
     # 'new' is rewritten to 'verified' before serialisation (R11.6)
     return {"new"} if tname == "ActionAttributeType" else set()
+
+
+def _xsd_pattern_matches(pat: str, text: str) -> bool:
+    """XSD patterns are implicitly anchored; the subset used by these schemas (classes, negated classes, escapes, + * ? .) is Python-compatible"""
+    import re
+
+    try:
+        return re.fullmatch(pat, text, re.DOTALL) is not None
+    except re.error as e:  # pragma: no cover
+        raise AnalysisError(f"XSD pattern {pat!r} cannot be evaluated: {e}")
+
+
+def _literal_alternatives(p, pr, value, f, depth=0):
+    """string literals an expression can evaluate to by itself: operands of `or`, arms of a conditional expression, a local bound to one of these,
+    literal stores into the field it reads (constructor defaults)"""
+    out = set()
+    if depth > 4 or value is None:
+        return out
+    if isinstance(value, ast.Constant):
+        if isinstance(value.value, str):
+            out.add(value.value)
+    elif isinstance(value, ast.BoolOp):
+        for v in value.values:
+            out |= _literal_alternatives(p, pr, v, f, depth + 1)
+    elif isinstance(value, ast.IfExp):
+        out |= _literal_alternatives(p, pr, value.body, f, depth + 1) | _literal_alternatives(p, pr, value.orelse, f, depth + 1)
+    elif isinstance(value, ast.Name) and f is not None:
+        for a in walk_no_nested(f.node):
+            if isinstance(a, ast.Assign) and any(isinstance(t, ast.Name) and t.id == value.id for t in a.targets):
+                out |= _literal_alternatives(p, pr, a.value, f, depth + 1)
+    elif isinstance(value, ast.Attribute) and f is not None:
+        try:
+            consts, _ = constant_set(p, pr, value, f)
+        except Exception:
+            consts = set()
+        out |= {c for c in consts if isinstance(c, str)}
+    elif isinstance(value, ast.Call) and isinstance(value.func, ast.Attribute) and value.func.attr == "get" and len(value.args) == 2:
+        out |= _literal_alternatives(p, pr, value.args[1], f, depth + 1)
+    elif isinstance(value, ast.Call) and norm(value.func) == "str" and len(value.args) == 1:
+        if isinstance(value.args[0], ast.Constant) and value.args[0].value is None:
+            out.add("None")
+    return out
 
 
 def constant_set(p, pr, value, f):
